@@ -2,6 +2,7 @@ package nfa
 
 import (
 	"regexp/syntax"
+	"unicode/utf8"
 )
 
 // BranchDispatcher provides O(1) branch selection for anchored alternations.
@@ -38,6 +39,11 @@ type branchMatcher struct {
 	charClass    [256]bool
 	minMatch     int
 	hasCharClass bool
+
+	// For literal+class branches like ba[rz] (what the parser makes of
+	// bar|baz): one more byte after the literal, from this ASCII class
+	next    [256]bool
+	hasNext bool
 }
 
 // NewBranchDispatcher creates a dispatcher for an anchored alternation.
@@ -78,10 +84,11 @@ func NewBranchDispatcher(re *syntax.Regexp) *BranchDispatcher {
 			return nil // Can't determine first bytes for this branch
 		}
 
-		if fb.Count() == 0 {
-			// Branch can match empty (like ^ or empty alternative)
-			canMatchEmpty = true
-			continue
+		// The branch matchers below implement only these two forms completely;
+		// anything else (concatenations, lazy or counted repetition, anchors,
+		// case folding, non-ASCII) must go to a general engine.
+		if !isExactBranch(branch) {
+			return nil
 		}
 
 		// Check for overlap with previous branches
@@ -105,6 +112,52 @@ func NewBranchDispatcher(re *syntax.Regexp) *BranchDispatcher {
 		branchMatchers: branchMatchers,
 		canMatchEmpty:  canMatchEmpty,
 	}
+}
+
+// isExactBranch reports whether buildBranchMatcher implements the branch
+// completely: a non-empty, case-sensitive ASCII literal, such a literal
+// followed by one ASCII class, or a greedy repetition (+) of a class whose
+// membership is decided byte by byte.
+func isExactBranch(re *syntax.Regexp) bool {
+	switch re.Op {
+	case syntax.OpLiteral:
+		return isExactLiteral(re)
+	case syntax.OpConcat:
+		return len(re.Sub) == 2 && isExactLiteral(re.Sub[0]) && isASCIIClass(re.Sub[1])
+	case syntax.OpPlus:
+		if re.Flags&syntax.NonGreedy != 0 || len(re.Sub) != 1 {
+			return false
+		}
+		return re.Sub[0].Op == syntax.OpCharClass && IsByteClass(re.Sub[0])
+	}
+	return false
+}
+
+// isExactLiteral: non-empty, case-sensitive, ASCII only.
+func isExactLiteral(re *syntax.Regexp) bool {
+	if re.Op != syntax.OpLiteral || re.Flags&syntax.FoldCase != 0 || len(re.Rune) == 0 {
+		return false
+	}
+	for _, r := range re.Rune {
+		if r >= utf8.RuneSelf {
+			return false
+		}
+	}
+	return true
+}
+
+// isASCIIClass: a character class all of whose members are ASCII, so that it
+// matches exactly one byte.
+func isASCIIClass(re *syntax.Regexp) bool {
+	if re.Op != syntax.OpCharClass || len(re.Rune)%2 != 0 {
+		return false
+	}
+	for _, r := range re.Rune {
+		if r >= utf8.RuneSelf {
+			return false
+		}
+	}
+	return true
 }
 
 // buildBranchMatcher creates an optimized matcher for a single branch.
@@ -180,6 +233,15 @@ func buildBranchMatcher(re *syntax.Regexp) branchMatcher {
 				}
 				m.literal[i] = byte(r)
 			}
+			if len(re.Sub) == 2 && isASCIIClass(re.Sub[1]) {
+				cc := re.Sub[1]
+				for i := 0; i < len(cc.Rune); i += 2 {
+					for r := cc.Rune[i]; r <= cc.Rune[i+1]; r++ {
+						m.next[byte(r)] = true
+					}
+				}
+				m.hasNext = true
+			}
 		}
 	}
 
@@ -211,6 +273,9 @@ func (d *BranchDispatcher) IsMatch(haystack []byte) bool {
 			if haystack[i] != b {
 				return false
 			}
+		}
+		if m.hasNext {
+			return len(haystack) > len(m.literal) && m.next[haystack[len(m.literal)]]
 		}
 		return true
 	}
@@ -261,6 +326,12 @@ func (d *BranchDispatcher) Search(haystack []byte) (int, int, bool) {
 				return -1, -1, false
 			}
 		}
+		if m.hasNext {
+			if len(haystack) <= len(m.literal) || !m.next[haystack[len(m.literal)]] {
+				return -1, -1, false
+			}
+			return 0, len(m.literal) + 1, true
+		}
 		return 0, len(m.literal), true
 	}
 
@@ -290,29 +361,26 @@ func IsBranchDispatchPattern(re *syntax.Regexp) bool {
 		return false
 	}
 
-	// Must be concatenation starting with ^ anchor
-	if re.Op != syntax.OpConcat || len(re.Sub) < 2 {
+	// Must be exactly: start-of-text anchor, then the alternation. Anything
+	// after the alternation would be ignored by the dispatcher.
+	if re.Op != syntax.OpConcat || len(re.Sub) != 2 {
 		return false
 	}
 
-	// First element must be start anchor
-	if re.Sub[0].Op != syntax.OpBeginLine && re.Sub[0].Op != syntax.OpBeginText {
+	// First element must be the start-of-text anchor
+	if re.Sub[0].Op != syntax.OpBeginText {
 		return false
 	}
 
-	// Rest must be suitable for branch dispatch
-	// Find the alternation (may be wrapped in capture)
-	for _, sub := range re.Sub[1:] {
-		inner := sub
-		if sub.Op == syntax.OpCapture && len(sub.Sub) == 1 {
-			inner = sub.Sub[0]
-		}
-		if inner.Op == syntax.OpAlternate {
-			// Try to build dispatcher - if it succeeds, pattern is suitable
-			dispatcher := NewBranchDispatcher(sub)
-			return dispatcher != nil
-		}
+	// The alternation may be wrapped in a capture
+	sub := re.Sub[1]
+	inner := sub
+	if sub.Op == syntax.OpCapture && len(sub.Sub) == 1 {
+		inner = sub.Sub[0]
 	}
-
-	return false
+	if inner.Op != syntax.OpAlternate {
+		return false
+	}
+	// Try to build dispatcher - if it succeeds, pattern is suitable
+	return NewBranchDispatcher(sub) != nil
 }
